@@ -144,7 +144,7 @@ HP = "harness.h_pipeline"
 
 
 def c15(tier):
-    q = [_ob("K-stage", HP, "k_stage", dict(max_stages=4)),
+    q = [_ob("K-stage", HP, "k_stage", dict(max_stages=4 if tier == "quick" else 6)),
          _ob("H-pipeline/2", HP, "h_pipeline", dict(max_stages=2, fails=False), **_HO)]
     if tier == "quick":
         return q
@@ -186,7 +186,8 @@ def c13(tier):
          _ob("H-resubmit", HR, "h_resubmit", dict(shapes=["chain3", "join3"], bss=[2]), **_HO)]
     if tier == "quick":
         return q
-    return q + [_ob("H-resubmit/wide", HR, "h_resubmit", dict(shapes=["chain3", "fork3", "join3"], bss=[1, 2]), **_HO)]
+    return q + [_ob("H-resubmit/wide", HR, "h_resubmit", dict(shapes=["chain3", "fork3", "join3"], bss=[1, 2]), **_HO),
+                _ob("K-closure/N4", HR, "k_closure", dict(N=4, outcomes=2))]
 
 
 KL = "harness.k_launch"
